@@ -101,7 +101,7 @@ theorem resetCounters_keeps_runErrors (fr : Frame) (c : CofCfg) (s : St)
 theorem stopGroup_ends_only_its_group (fuel : Nat) (prog : Program) (pipe g : String) (s s1 : St)
     (h : runSteps fuel prog pipe (groupSteps prog pipe g) s = (s1, .stopGroup)) :
     runStepGroup (fuel + 1) prog pipe g false s = (s1, .ok) := by
-  rw [runStepGroup_eq, h]; rfl
+  rw [runStepGroup_of_run fuel prog pipe g false s s1 _ h (by simp) (by simp)]; rfl
 
 theorem stopGroup_next_group_runs (fuel : Nat) (prog : Program) (pipe g : String) (rest : List String) (s s1 : St)
     (h : runSteps fuel prog pipe (groupSteps prog pipe g) s = (s1, .stopGroup)) :
@@ -165,11 +165,11 @@ theorem root_reports_success (fuel : Nat) (prog : Program) (pi : PipeInst) (s s1
 /-! ## non-vacuity: a concrete pipeline in which Stop is raised under swallow + retry inside a called group -/
 
 def demoProg : Program := ⟨[{ name := "main", groups := [
-  ("steps", some [
+  ("steps", .steps [
     { name := some "pypyr.steps.call", inArgs := some [("call", .str "sg")], swallow := .bool true,
       retry := some { max := some (.int 3) } },
     { name := some "vprobe", inArgs := some [("p", .dict [(.str "tag", .str "after")])] }]),
-  ("sg", some [{ name := some "pypyr.steps.stop", simple := true }])] }]⟩
+  ("sg", .steps [{ name := some "pypyr.steps.stop", simple := true }])] }]⟩
 
 /-- the run ends successfully, the step after the call never runs, nothing is recorded, nothing slept. -/
 example :
